@@ -106,7 +106,7 @@ def execute_cases(gen, seed, prefix, procs=16):
     return events, {cid: (key, msg) for cid, key, msg in todo}
 
 
-def judge(events, name, shards=16):
+def judge(events, name, shards=16, module="Trace_Merge"):
     """TLC judges every event; returns list of BAD records and judge stats"""
     wd = tlc.workdir("judge-" + name)
     events = [e for e in events if "machinery" not in e]
@@ -119,7 +119,7 @@ def judge(events, name, shards=16):
         path = os.path.join(wd, "ev%d.json" % i)
         with open(path, "w") as f:
             json.dump([{k: v for k, v in e.items() if k != "xml"} for e in parts[i]], f)
-        res = tlc.run("Trace_Merge", "Trace_Merge.cfg", "judge-%s-%d" % (name, i), workers=1,
+        res = tlc.run(module, module + ".cfg", "judge-%s-%d" % (name, i), workers=1,
                       env={"TRACE_FILE": path}, timeout=3000, heap="3g")
         os.remove(path)
         return res
@@ -130,7 +130,7 @@ def judge(events, name, shards=16):
     judged = 0
     states = 0
     for i, res in enumerate(results):
-        tlc.require_ok(res, "Trace_Merge shard %d of %s" % (i, name))
+        tlc.require_ok(res, "%s shard %d of %s" % (module, i, name))
         j = res["lines"].get("JUDGED", [])
         if not j or int(j[-1]) != len(parts[i]):
             raise tlc.TlcError("judge shard %d of %s consumed %s of %d events" % (i, name, j, len(parts[i])))
